@@ -3,7 +3,9 @@
 import json, os, sys
 ROOT = os.path.dirname(os.path.abspath(__file__))
 sys.path.insert(0, ROOT)
-from checks_registry import REGISTRY, NOT_APPLICABLE, HOOK_COMMITS
+from checks_registry import REGISTRY, NOT_APPLICABLE
+import subprocess
+HOOK_COMMITS = [l.split()[0] for l in subprocess.run(["git", "-C", "/repo", "log", "--format=%H %s"], capture_output=True, text=True).stdout.splitlines() if " verif hooks" in l]
 
 ALL = ["C%02d" % i for i in range(1, 21)]
 checks = []
